@@ -45,6 +45,10 @@ EDITS = {
     "C05": [
         ("cc01", "crates/lib/mimium-lang/src/runtime/vm.rs", "                    self.states_stack.push(cls_i);\n                    self.call_function(func, nargs, nret_req, move |machine| {\n                        machine.execute(pos_of_f, Some(cls_i))\n                    });\n                    self.states_stack.pop();\n                }\n                Instruction::Call(", "                    self.states_stack.push(cls_i);\n                    self.call_function(func, nargs, nret_req, move |machine| {\n                        machine.execute(pos_of_f, Some(cls_i))\n                    });\n                }\n                Instruction::Call(", "verus", "vm_storage"),
         ("cc02", "crates/lib/mimium-lang/src/runtime/vm.rs", "                    let pos_of_f = cls.fn_proto_pos;\n                    self.states_stack.push(cls_i);\n                    self.call_function(func, nargs, nret_req, move |machine| {\n                        machine.execute(pos_of_f, Some(cls_i))\n                    });\n                    self.states_stack.pop();\n                }\n                Instruction::Call(", "                    let pos_of_f = cls.fn_proto_pos;\n                    self.call_function(func, nargs, nret_req, move |machine| {\n                        machine.execute(pos_of_f, Some(cls_i))\n                    });\n                }\n                Instruction::Call(", "verus", "vm_storage"),
+        ("sy01", "crates/lib/mimium-lang/src/mir.rs", "            Type::Tuple(elems) => StateType(elems.iter().map(|ty| ty.word_size() as u64).sum()),", "            Type::Tuple(elems) => StateType(elems.len() as u64),", "verus", "state_type"),
+        ("sy02", "crates/lib/mimium-lang/src/mir.rs", "                    .map(|RecordTypeField { ty, .. }| ty.word_size() as u64)\n                    .sum(),", "                    .map(|RecordTypeField { ty, .. }| ty.word_size().min(1) as u64)\n                    .sum(),", "verus", "state_type"),
+        ("sy03", "crates/lib/mimium-lang/src/mir.rs", "            Type::Primitive(PType::Unit) => StateType(0),", "            Type::Primitive(PType::Unit) => StateType(1),", "verus", "state_type"),
+        ("sy04", "crates/lib/mimium-lang/src/mir.rs", "            Type::Array(_elem_ty) => StateType(1),", "            Type::Array(_elem_ty) => StateType(2),", "verus", "state_type"),
         ("vs01", "crates/lib/mimium-lang/src/runtime/vm.rs", "        state_storage.resize(fnproto.state_skeleton.total_size() as usize);", "        state_storage.resize(fnproto.state_skeleton.total_size() as usize / 2);", "verus", "vm_storage"),
         ("vs02", "crates/lib/mimium-lang/src/runtime/vm.rs", "            self.global_states\n                .resize(func.state_skeleton.total_size() as usize);", "            if self.global_states.rawdata.is_empty() { self.global_states\n                .resize(func.state_skeleton.total_size() as usize); }", "verus", "vm_storage"),
         ("vs03", "crates/lib/mimium-lang/src/runtime/vm.rs", "        self.pos = (self.pos as u64 - (std::convert::Into::<u64>::into(offset))) as usize;", "        self.pos = (self.pos as u64).saturating_sub(std::convert::Into::<u64>::into(offset) + 1) as usize;", "verus", "vm_storage"),
